@@ -3,6 +3,15 @@ import PgBifrost.Driver.Batcher
 import PgBifrost.Driver.BatcherMon
 import PgBifrost.Driver.Filter
 import PgBifrost.Driver.Partitioner
+import PgBifrost.Driver.Pipeline
+import PgBifrost.Driver.Aggregator
+import PgBifrost.Driver.Client
+import PgBifrost.Driver.Rabbit
+import PgBifrost.Driver.S3
+import PgBifrost.Driver.Kafka
+import PgBifrost.Driver.Kinesis
+import PgBifrost.Driver.Marshal
+import PgBifrost.Driver.Parser
 /-! `bfmodel`: line-protocol driver for the executable models (core Lean only, so it links).
 One request line in, one answer line out. First word selects the model. -/
 open PgBifrost
@@ -15,6 +24,15 @@ structure DriverState where
   batchermon : Driver.BatcherMon.MState := {}
   filter : Driver.Filter.DState := ⟨false, false, []⟩
   partitioner : Driver.Partitioner.DState := {}
+  pipemon : Driver.Pipeline.MState := []
+  marshal : Driver.Marshal.DState := {}
+  kinesis : Driver.Kinesis.DState := {}
+  kafka : Driver.Kafka.DState := {}
+  s3 : Driver.S3.DState := {}
+  rabbit : Driver.Rabbit.DState := {}
+  client : Driver.Client.DState := {}
+  clientmon : Driver.Client.MonState := {}
+  aggregator : Driver.Aggregator.DState := {}
 
 def dispatch (st : DriverState) (line : String) : DriverState × String :=
   match Util.words line with
@@ -25,8 +43,28 @@ def dispatch (st : DriverState) (line : String) : DriverState × String :=
   | "batch" :: args => let (s, out) := Driver.Batcher.batchHandle st.batch args; ({ st with batch := s }, out)
   | "filter" :: args => let (s, out) := Driver.Filter.handle st.filter args; ({ st with filter := s }, out)
   | "partitioner" :: args => let (s, out) := Driver.Partitioner.handle st.partitioner args; ({ st with partitioner := s }, out)
+  | "pipeline" :: _ => (st, "-")   -- environment script of the pipeline harness; judged by pipemon/ledgermon
+  | "pipemon" :: args => let (s, out) := Driver.Pipeline.handle st.pipemon args; ({ st with pipemon := s }, out)
   | "cli" :: args => (st, Driver.Filter.cliHandle args)
   | "crc" :: args => (st, Driver.Batcher.crcHandle args)
+  | "parser" :: args => let (_, out) := Driver.Parser.handle () args; (st, out)
+  | "marshal" :: args => let (s, out) := Driver.Marshal.handle st.marshal args; ({ st with marshal := s }, out)
+  | "marshalmon" :: args => (st, Driver.Marshal.monHandle args)
+  | "kinesis" :: args => let (s, out) := Driver.Kinesis.handle st.kinesis args; ({ st with kinesis := s }, out)
+  | "kinesismon" :: args => (st, Driver.Kinesis.monHandle args)
+  | "kafka" :: args => let (s, out) := Driver.Kafka.handle st.kafka args; ({ st with kafka := s }, out)
+  | "kafkamon" :: args => (st, Driver.Kafka.monHandle args)
+  | "s3" :: args => let (s, out) := Driver.S3.handle st.s3 args; ({ st with s3 := s }, out)
+  | "s3fixed" :: args => let (s, out) := Driver.S3.handleFixed st.s3 args; ({ st with s3 := s }, out)
+  | "s3spec" :: args => (st, Driver.S3.specHandle args)
+  -- `rabbit` is the model of the code as it is now (after the F7/F8 fix); `rabbitold` the pre-fix model (witnesses only)
+  | "rabbit" :: args => let (s, out) := Driver.Rabbit.handle .fixed st.rabbit args; ({ st with rabbit := s }, out)
+  | "rabbitold" :: args => let (s, out) := Driver.Rabbit.handle .asIs st.rabbit args; ({ st with rabbit := s }, out)
+  | "rabbitspec" :: args => (st, Driver.Rabbit.specHandle args)
+  | "client" :: args => let (s, out) := Driver.Client.handle st.client args; ({ st with client := s }, out)
+  | "clientmon" :: args => let (s, out) := Driver.Client.monHandle st.clientmon args; ({ st with clientmon := s }, out)
+  | "aggregator" :: args => let (s, out) := Driver.Aggregator.handle st.aggregator args; ({ st with aggregator := s }, out)
+  | "aggspec" :: args => let (s, out) := Driver.Aggregator.specHandle st.aggregator args; ({ st with aggregator := s }, out)
   | ["ping"] => (st, "pong")
   | _ => (st, "bad-op")
 
